@@ -153,6 +153,13 @@ def specTable (spec : List ColStyle) : List RowR → List RowR
     else specRows spec none (r0 :: r1 :: rest)
   | rows => specRows spec none rows
 
+/-- the finished-cell record of a cell written as `b` (content at context depth `d`) -/
+def writtenCell (d : Nat) (b : Blocks) : CellR := cellOf (.mk ⟨d, .cell⟩ (b.nodes d))
+
+/-- the rows of a table as written: first cell, further cells of the first row, further rows -/
+def writtenRows (d : Nat) (c : Blocks) (cs : Cells) (rs : Rows) : List RowR :=
+  ((c :: cs.toList) :: rs.toList).map fun r => r.map (writtenCell d)
+
 /-! ## what a written table means (rule normal form: `\hline`/`\cline` stand at the start of a
 row, before its first cell's content, or alone in a row of their own) -/
 
